@@ -646,6 +646,9 @@ func (c *VCtx) release(fr *Frame, st *State, lock *Term, pos token.Pos) {
 	for _, m := range h.specs {
 		sc := c.objScope(m, st, m.entry)
 		for i, inv := range m.spec.Invs {
+			if c.heldAtEntry != nil && lock.S == c.heldAtEntry.S && c.contract != nil && strings.Contains(" "+c.contract.Opts["leaves"]+" ", " "+inv.Label+" ") {
+				continue // an intermediate helper: its callers re-establish this invariant (opt leaves)
+			}
 			g := c.translateBool(sc, inv.E)
 			c.proveOnly(inv.Props, clauseProps(inv, m.spec.Props), fmt.Sprintf("cs%d.inv.%s.%s", c.csCount, m.spec.Type, clauseLabel(inv, i)),
 				fmt.Sprintf("object invariant of %s restored at unlock (%s): %s", m.spec.Type, c.eng.pos(pos), inv.Src), st.pc, g)
@@ -738,6 +741,30 @@ func (c *VCtx) noteCallback(fr *Frame, st *State, f *Term, args []Val) {}
 func (c *VCtx) monitorEntry(fr *Frame, st *State, ct *FuncContract) {
 	// "opt holds = <lockfield>": the function is a ...Locked helper that runs inside a critical section of
 	// its receiver: the lock is held and the object invariant holds on entry, and must hold again on exit.
+	if lf := ct.Opts["holds"]; lf != "" && fr.fn.Signature.Recv() == nil {
+		// a callback that the library invokes inside a critical section: "opt holds = r.mtx" with r a captured variable
+		first, rest, _ := strings.Cut(lf, ".")
+		for _, f := range fr.fn.FreeVars {
+			if f.Name() != first {
+				continue
+			}
+			v := fr.env[f]
+			if l, ok := v.(*Loc); ok {
+				v = c.load(nil, st, l, 0)
+			}
+			if t, ok := v.(*Term); ok && t.Sort == SRef {
+				pt, isPtr := deref(f.Type()).Underlying().(*types.Pointer)
+				if !isPtr {
+					unsup("opt holds: captured variable %s is not a pointer", first)
+				}
+				cur := c.lockByPath(st, t, pt.Elem(), rest)
+				c.acquireNoHavoc(fr, st, cur)
+				c.heldAtEntry = cur
+				fr.csEntry = st.clone()
+				c.lastCSEntry = fr.csEntry
+			}
+		}
+	}
 	if lf := ct.Opts["holds"]; lf != "" && fr.fn.Signature.Recv() != nil {
 		recv := c.asTerm(fr.env[fr.fn.Params[0]])
 		cur := c.lockByPath(st, recv, deref(fr.fn.Params[0].Type()), lf)
@@ -801,7 +828,7 @@ func (c *VCtx) acquireNoHavoc(fr *Frame, st *State, lock *Term) {
 	st.held[lock.S] = h
 	breaks := ""
 	if fr != nil && fr.contract != nil {
-		breaks = " " + fr.contract.Opts["breaks"] + " "
+		breaks = " " + fr.contract.Opts["breaks"] + " " + fr.contract.Opts["leaves"] + " "
 	}
 	for _, m := range h.specs {
 		sc := c.objScope(m, st, st)
@@ -932,6 +959,15 @@ func (c *VCtx) recv(fr *Frame, st *State, x *ssa.UnOp) Val {
 	if isEmptyStruct(et) {
 		c.fact(Implies(st.pc, And(Not(Eq(ch, Null)), c.isClosed(st, ch))))
 		c.eng.assume("channels of element type struct{} are never sent on (close-only); a receive returns only after close")
+	}
+	if fr.contract != nil {
+		fr.recvs++
+		pt := fmt.Sprintf("recv %d", fr.recvs)
+		for _, a := range fr.contract.AssumesAt[pt] {
+			sc := &Scope{c: c, vars: c.baseVars(fr), st: st, old: fr.entry, fr: fr, pkg: fnPkgPath(fr.fn), exitOf: fr.curBlock}
+			c.fact(Implies(st.pc, c.translateBool(sc, a.E)))
+			c.eng.assume("assumed at " + pt + " in " + FuncKey(fr.fn) + ": " + a.Src)
+		}
 	}
 	v := c.freshVal("rcv", et)
 	if x.CommaOk {
